@@ -3,16 +3,16 @@ From MiniMcmc Require Export Model.Stats Model.Summary.
 Close Scope Q_scope.
 Close Scope R_scope.
 
-(* one parameter: W, var+ of the half-chains *)
+(* one parameter: W, var+ of the half-chains, and split R-hat squared (Model.Stats.split_rhat2) *)
 Definition c11_eval (chains : list (list Q)) : list Z :=
   let wv := withinvar numQ (split_halves numQ chains) in
-  qout (fst wv) ++ qout (snd wv).
+  qout (fst wv) ++ qout (snd wv) ++ qout (split_rhat2 numQ chains).
 
-(* one parameter: W, var+, tau *)
+(* one parameter: W, var+, tau, and the effective sample size M*N/tau (Model.Stats.ess) *)
 Definition c12_eval (chains : list (list Q)) : list Z :=
   let hs := split_halves numQ chains in
   let wv := withinvar numQ hs in
-  qout (fst wv) ++ qout (snd wv) ++ qout (ess_tau numQ hs).
+  qout (fst wv) ++ qout (snd wv) ++ qout (ess_tau numQ hs) ++ qout (ess numQ hs).
 
 (* both autocovariance definitions at once (tie for C12_fft_is_bf on concrete data): 1 if equal *)
 Definition c12_paths_agree (P : nat) (xs : list Q) : list Z :=
